@@ -27,7 +27,7 @@ BOUNDS = {
         dict(name="nested2", minlen=1, maxlen=2, maxk=2, depth=1, gk=2, types=T3, gtypes=("", "string", "x")),
     ],
 }
-STREAM_FAMS = ["mix", "concat", "net", "shell"]
+STREAM_FAMS = ["mix", "concat", "net", "shell", "ctx"]
 
 
 def describe(tier):
